@@ -175,7 +175,7 @@ def run_check(prop_name, tier, master, runs=None, wall_cap=None, workers=None, o
         step = max(1, len(results) // det_n)
         sample = [r for r in results[::step]][:det_n]
         again = core.rerun(prop_name, tier, master, [r['index'] for r in sample], workers)
-        det_bad = [r['index'] for r in sample if again.get(r['index']) != core.run_digest(r)]
+        det_bad = [r['index'] for r in sample if again.get(r['index']) != core.run_digest(r, prop)]
         stats['determinism_sample'] = {'reexecuted': len(sample), 'diverged': len(det_bad)}
         for i in det_bad[:3]:
             print(f'HARNESS-ERROR property={prop.ID} run index {i} did not reproduce itself when executed again (nondeterministic simulator)')
